@@ -16,9 +16,10 @@
      insertion into the list happen under it, the drain needs it free.
    So a state in which a stream task stays parked forever although a value or the end of the stream is available
    would need a pending notifier that never runs, i.e. an unfair scheduler.
-   Not proved: the producers' side (a sink task parked on a full queue is notified when space is freed): the known
-   finding F14 lives there and the statement is false of the code as it is (see DESIGN.md); fairness of the
-   executor cannot be expressed.  Both sides are explored on the real code by the scheduler harness (DESIGN.md). *)
+   Refuted, not proved: the producers' side (a sink task parked on a full queue is notified when space is freed):
+   C14_sink_side_refuted exhibits a reachable state in which a sink task, refused because its slot was momentarily
+   pinned, and both stream tasks are parked un-notified although a send would be accepted - the known finding F14
+   (see DESIGN.md).  Fairness of the executor cannot be expressed.  Both sides are explored on the real code by the scheduler harness (DESIGN.md). *)
 From Coq Require Import NArith List Bool.
 Require Import MQ.Arith64 MQ.Arith64Facts MQ.Types MQ.State MQ.Model MQ.Exec MQ.Reach MQ.Ctl MQ.RecvDefs MQ.InvReg MQ.WinDefs MQ.WinRun
   MQ.WaitStep MQ.WakeDefs MQ.NpDefs MQ.FutDefs MQ.FutStepA MQ.FutStepC MQ.FutStepD MQ.FutStepE MQ.InvFut.
@@ -104,6 +105,56 @@ Proof. exact f_FN1_enabled. Qed.
 Check C14_drain_needs_the_lock_free : forall me A S,
   a_pc A = FN1 -> enabled me A S = true -> cp_lock S = None.
 Print Assumptions C14_drain_needs_the_lock_free.
+
+(* ---- the producers' side: the statement is false of the code as it is (known finding F14) ----
+   [sink_side_statement]: whenever a sink task is parked with NotReady(v), un-notified, on the producers' park list,
+   while a send would be accepted (room in every stream's window, the slot of the head position unpinned, readers
+   present), some agent can still take a step.  Refuted on a broadcast queue with one slot and two stream tasks
+   on one stream: the state reached by the schedule below has every task parked and un-notified.  The same
+   schedule on the real code is findings/F14_pinned_refusal_nobody_notifies.scn. *)
+Definition room (c : cfg) (S : shared) : Prop :=
+  (forall sg, In sg (streams S) -> head S < gpos S sg + c_n c) /\ gpin S (head S mod c_n c) = 0 /\
+  signal S = 0 /\ streams S <> [].
+Definition runnable (s : state) (n : N) (A : agent) : bool := is_local (a_pc A) || enabled n A (sh s).
+Definition sink_side_statement (c : cfg) : Prop :=
+  forall s t T, mreach c true s -> get (ags s) t = Some T ->
+    a_pc T = AW -> a_notified T = false -> (exists v, r_res (a_r T) = RFull v) -> In t (pparked (sh s)) -> room c (sh s) ->
+    exists n A, get (ags s) n = Some A /\ runnable s n A = true.
+
+Lemma forallb_get {X} (f : N * X -> bool) (m : fmap X) : forallb f m = true ->
+  forall n x, get m n = Some x -> f (n, x) = true.
+Proof.
+  induction m as [|(k, v) m IH]; cbn [forallb]; intros H n x G; [discriminate G|].
+  apply andb_prop in H as [H1 H2]. change (get ((k, v) :: m) n) with (if N.eqb n k then Some v else get m n) in G.
+  revert G. destruct (N.eqb n k) eqn:E; intros G.
+  - apply N.eqb_eq in E. assert (EV : v = x) by congruence. subst k x. exact H1.
+  - apply (IH H2 n x G).
+Qed.
+
+Theorem C14_sink_side_refuted : ~ sink_side_statement (mk_cfg BCast 1 (WFut 0 0)).
+Proof.
+  intros ST.
+  destruct (m_run true (mk_cfg BCast 1 (WFut 0 0)) (init true)
+     [MCall 1 (CClone 2) 100; MCall 0 (CAStartSend 1) 200; MBegin 1 CAPoll; MSteps 1 8; MCall 2 CAPoll 200; MStep 1;
+      MBegin 0 (CAStartSend 2); MSteps 0 20; MSteps 1 17; MBegin 2 CAPoll; MSteps 2 21]) as [s|] eqn:E;
+    [|vm_compute in E; discriminate E].
+  assert (R : mreach (mk_cfg BCast 1 (WFut 0 0)) true s)
+    by (apply mreachN_mreach; eapply m_run_sound; [apply mrn_init|exact E]).
+  destruct (get (ags s) 0) as [T|] eqn:ET; [|vm_compute in E; injection E as <-; vm_compute in ET; discriminate ET].
+  assert (NR : forallb (fun p => negb (runnable s (fst p) (snd p))) (ags s) = true)
+    by (vm_compute in E; injection E as <-; vm_compute; reflexivity).
+  destruct (ST s 0 T R ET) as (n & A & EA & RN).
+  - vm_compute in E. injection E as <-. vm_compute in ET. injection ET as <-. reflexivity.
+  - vm_compute in E. injection E as <-. vm_compute in ET. injection ET as <-. reflexivity.
+  - vm_compute in E. injection E as <-. vm_compute in ET. injection ET as <-. exists 2. reflexivity.
+  - vm_compute in E. injection E as <-. vm_compute. left. reflexivity.
+  - vm_compute in E. injection E as <-. clear. unfold room. vm_compute. repeat split.
+    + intros sg [<- | []]. reflexivity.
+    + intros X; discriminate X.
+  - pose proof (forallb_get _ _ NR n A EA) as K. cbn [fst snd] in K. rewrite RN in K. discriminate K.
+Qed.
+Check C14_sink_side_refuted : ~ sink_side_statement (mk_cfg BCast 1 (WFut 0 0)).
+Print Assumptions C14_sink_side_refuted.
 
 (* non-vacuity: stream task 1 polls an empty queue, gets NotReady and is parked; sink task 0 publishes a value and
    has not drained the park list yet *)
